@@ -414,6 +414,11 @@ def run(ctx):
     rules.append(_splice_rule(ctx))
     from .c10 import _classifier_rule
     rules.append(_classifier_rule(ctx, "C06", "C06.R11"))
+    from .c10 import static_default_verbatim
+    r13 = Rule("C06", "C06.R13", "static defaults are written character for character", floor=20,
+               necessary="a default rewritten on its way into the instance node (quotes stripped, trimmed, unescaped) is not the text the author typed")
+    static_default_verbatim(ctx, r13, "C06.R13")
+    rules.append(r13)
     return rules
 
 
